@@ -848,3 +848,96 @@ func TestC08Concurrent(t *testing.T) {
 	}
 	vlib.ClassN(sub, "messages-per-pair", int64(msgs))
 }
+
+// ---------------------------------------------------------------------------
+// Length sweep: one pair per AEAD, a deterministic sequence of messages whose plaintext / aad lengths sit around every
+// power-of-two boundary and around those boundaries minus the 16-byte tag (0, 1, 15..17, 255..257, every length in
+// 2^16-17 .. 2^16+1, 2^17-17 .. 2^17+1). Every ciphertext must be the independent AEAD's under base_nonce XOR i, the
+// opener must accept every in-order ciphertext, and both marshalled counters must stay in step.
+
+func sweepLengths() []int {
+	l := []int{0, 1, 15, 16, 17, 31, 32, 33, 255, 256, 257, 4095, 4096, 4097}
+	for n := 1<<16 - 17; n <= 1<<16+1; n++ {
+		l = append(l, n)
+	}
+	for n := 1<<17 - 17; n <= 1<<17+1; n++ {
+		l = append(l, n)
+	}
+	return l
+}
+
+func TestC08Lengths(t *testing.T) {
+	defer vlib.Done()
+	const sub = "length-sweep"
+	if vlib.Shard != 0 {
+		return
+	}
+	buf := make([]byte, 1<<17+64)
+	vlib.ExpandInto(buf, uint64(vlib.Seed)*313+5)
+	for ai, aeadID := range []uint16{rhpke.AEADAES128, rhpke.AEADAES256, rhpke.AEADChaCha} {
+		kemID := []uint16{rhpke.KEMX25519, rhpke.KEMP256}[ai%2]
+		cs := hpke.NewSuite(hpke.KEM(kemID), hpke.KDF(rhpke.KDFSHA256+uint16(ai)), hpke.AEAD(aeadID))
+		sch := hpke.KEM(kemID).Scheme()
+		ikm := make([]byte, sch.SeedSize())
+		vlib.ExpandInto(ikm, uint64(vlib.Seed)*17+uint64(ai))
+		pkR, skR := sch.DeriveKeyPair(ikm)
+		snd, _ := cs.NewSender(pkR, nil)
+		rcv, _ := cs.NewReceiver(skR, nil)
+		enc, sl, err := snd.Setup(vlib.NewReader(uint64(vlib.Seed)*29 + uint64(ai)))
+		if err != nil {
+			t.Fatalf("Sender.Setup: %v", err)
+		}
+		op, err := rcv.Setup(enc)
+		if err != nil {
+			t.Fatalf("Receiver.Setup: %v", err)
+		}
+		raw, _ := sl.MarshalBinary()
+		f, err := parseCtx(raw)
+		if err != nil {
+			t.Fatalf("marshal layout: %v", err)
+		}
+		a, err := rhpke.NewAEAD(aeadID, f.key)
+		if err != nil {
+			t.Fatalf("stdlib AEAD: %v", err)
+		}
+		seq := new(big.Int)
+		lens := sweepLengths()
+		for i, n := range lens {
+			// the same structured values are used for the aad, rotated against the plaintext lengths
+			ptLen, aadLen := n, lens[(i*7+3)%len(lens)]
+			if i%3 != 0 && aadLen > 300 {
+				aadLen = aadLen % 300
+			}
+			pt, aad := buf[:ptLen], buf[len(buf)-aadLen:]
+			vlib.Eval(sub)
+			replay := map[string]interface{}{"aead": aeadID, "ptlen": ptLen, "aadlen": aadLen, "index": i}
+			where := fmt.Sprintf("AEAD %d, message %d, plaintext %d bytes, aad %d bytes", aeadID, i, ptLen, aadLen)
+			ct, err := sl.Seal(pt, aad)
+			if err != nil {
+				vlib.ReportDirect(t, "C08/length-sweep/seal-error", fmt.Sprintf("%s: %v", where, err), replay)
+				return
+			}
+			want := a.Seal(nil, rhpke.ComputeNonce(f.bn, seq), pt, aad)
+			if !bytes.Equal(ct, want) {
+				vlib.ReportDirect(t, "C08/length-sweep/seal-nonce", fmt.Sprintf("%s: ciphertext is not AEAD.Seal(key, base_nonce XOR %d, pt, aad) (lengths %d vs %d)", where, i, len(ct), len(want)), replay)
+				return
+			}
+			got, err := op.Open(ct, aad)
+			if err != nil || !bytes.Equal(got, pt) {
+				vlib.ReportDirect(t, "C08/length-sweep/open", fmt.Sprintf("%s: the opener refuses the genuine in-order ciphertext (%d bytes): %v", where, len(ct), err), replay)
+				return
+			}
+			seq.Add(seq, one)
+			for side, obj := range []hpke.Context{sl, op} {
+				raw, _ := obj.MarshalBinary()
+				g, err := parseCtx(raw)
+				if err != nil || !bytes.Equal(g.seq, seqBytes(seq)) {
+					vlib.ReportDirect(t, "C08/length-sweep/seq", fmt.Sprintf("%s: side %d marshalled seq %x, model %x", where, side, g.seq, seqBytes(seq)), replay)
+					return
+				}
+			}
+			vlib.NonTrivial(sub, "", []byte{byte(aeadID), byte(i)})
+		}
+		vlib.Exhaustive(fmt.Sprintf("C08 plaintext lengths 65519..65537 and 131055..131073, AEAD %d", aeadID), 38, "one message per length, in sequence on one pair")
+	}
+}
